@@ -208,7 +208,12 @@ def processPublishExpected : List String :=
    "pk.Ignore = true",
    "} else {",
    "if cl.Properties.ProtocolVersion == 5 && pk.FixedHeader.Qos > 0 && errors.As(err, new(packets.Code)) {",
-   "s.buildAck(pk.PacketID, packets.Puback, 0, pk.Properties, err.(packets.Code))",
+   -- the refusal carries the hook's code in the acknowledgement OF THE PUBLISH'S QoS (PUBREC for QoS 2, fix cacb33b)
+   "ackType := packets.Puback",
+   "if pk.FixedHeader.Qos == 2 {",
+   "ackType = packets.Pubrec",
+   "}",
+   "s.buildAck(pk.PacketID, ackType, 0, pk.Properties, err.(packets.Code))",
    "cl.WritePacket",
    "if err != nil {", "return err", "}",
    "return nil",
